@@ -263,10 +263,18 @@ fn run_local(case: &Case, out: &mut Out) {
         // (OnErrorObserver, OnCompleteObserver, ObserverItem) instead of a hand-written observer
         let u = if case.has("closure") {
           let (l1, l2, l3) = (log.clone(), log.clone(), log.clone());
+          // field `epanic`: the subscriber's error handler FAILS (panics) after it has been told; the emitting call is
+          // wrapped in catch_unwind below — the error is that subscriber's terminal all the same
+          let epanic = case.has("epanic");
           BoxSubscription::new(
             pipeline
               .clone()
-              .on_error(move |e| l1.borrow_mut().push(Notif::Error(e)))
+              .on_error(move |e| {
+                l1.borrow_mut().push(Notif::Error(e));
+                if epanic {
+                  panic!("the subscriber's error handler fails")
+                }
+              })
               .on_complete(move || l2.borrow_mut().push(Notif::Complete))
               .subscribe(move |v| l3.borrow_mut().push(Notif::Next(v))),
           )
@@ -279,10 +287,16 @@ fn run_local(case: &Case, out: &mut Out) {
       }
       "emit" => {
         let mut s = ctx.subject(ev[1].nat());
-        match Notif::parse(&ev[2]) {
+        let n = Notif::parse(&ev[2]);
+        let go = move || match n {
           Notif::Next(v) => s.next(v),
           Notif::Error(e) => s.error(e),
           Notif::Complete => s.complete(),
+        };
+        if case.has("epanic") {
+          let _ = std::panic::catch_unwind(std::panic::AssertUnwindSafe(go));
+        } else {
+          go()
         }
         let sfx = suffix(case, &exec);
         out.emit(k, drain(&log) + &sfx);
